@@ -46,7 +46,18 @@ fn main() {
     }
     common::sodium_init();
     let rest = &args[1..];
-    match args[0].as_str() {
+    // a panic that no family of the harness catches ends the run; it is reported with its location so that the checks can tell a
+    // panic raised inside dryoc (data: a violation) from one of the harness itself (a tool error)
+    let r = std::panic::catch_unwind(std::panic::AssertUnwindSafe(|| dispatch(&args[0], rest)));
+    if r.is_err() {
+        let w = common::LAST_PANIC.lock().map(|g| g.clone()).unwrap_or_default();
+        eprintln!("uncaught: panicked at {}", w);
+        std::process::exit(101);
+    }
+}
+
+fn dispatch(cmd: &str, rest: &[String]) {
+    match cmd {
         "stream-replay" => stream::cmd_replay(rest),
         "stream-trace" => stream::cmd_trace(rest),
         "stream-tamper" => stream::cmd_tamper(rest),
